@@ -190,7 +190,9 @@ impl<T: Write + Seek> ShapeWriter<T> {
         for shape in container {
             self.write_shape(shape)?;
         }
-        Ok(())
+        // The writer is consumed by this call: a failure of the final header update
+        // has to be reported here, `Drop` could only swallow it.
+        self.finalize()
     }
 
     /// Finalizes the file by updating the header
